@@ -141,6 +141,107 @@ class Class:
 _TREES = {}
 
 
+def _collapse_temps(tree):
+    """behaviour-preserving normal form applied to every parsed module: a local that is assigned once and read once, by
+    the very next statement, as its returned value / test / assigned value is substituted into that statement
+
+        _r = f(x); return _r          ->  return f(x)
+        ok = a < b; if ok: ...        ->  if a < b: ...
+        ok = a < b; if not ok: ...    ->  if not a < b: ...
+
+    so that rules which read a return expression or a test directly see through single-use temporaries.  Flags that are
+    read more than once, read later, or assigned more than once are left alone."""
+
+    def names(fn):
+        loads, stores = {}, {}
+        for n in ast.walk(fn):
+            if isinstance(n, ast.Name):
+                d = loads if isinstance(n.ctx, ast.Load) else stores
+                d[n.id] = d.get(n.id, 0) + 1
+            elif isinstance(n, (ast.Global, ast.Nonlocal)):
+                for x in n.names:
+                    stores[x] = stores.get(x, 0) + 2
+        return loads, stores
+
+    def do_block(body, loads, stores):
+        out = []
+        i = 0
+        while i < len(body):
+            s = body[i]
+            nxt = body[i + 1] if i + 1 < len(body) else None
+            if (
+                nxt is not None
+                and isinstance(s, ast.Assign)
+                and len(s.targets) == 1
+                and isinstance(s.targets[0], ast.Name)
+                and loads.get(s.targets[0].id) == 1
+                and stores.get(s.targets[0].id) == 1
+            ):
+                t = s.targets[0].id
+
+                def is_t(e):
+                    return isinstance(e, ast.Name) and e.id == t
+
+                done = False
+                if isinstance(nxt, ast.Return) and is_t(nxt.value):
+                    nxt.value = s.value
+                    done = True
+                elif isinstance(nxt, ast.If) and is_t(nxt.test):
+                    nxt.test = s.value
+                    done = True
+                elif isinstance(nxt, ast.If) and isinstance(nxt.test, ast.UnaryOp) and isinstance(nxt.test.op, ast.Not) and is_t(nxt.test.operand):
+                    nxt.test.operand = s.value
+                    done = True
+                elif isinstance(nxt, ast.Assign) and is_t(nxt.value):
+                    nxt.value = s.value
+                    done = True
+                elif isinstance(nxt, ast.Expr) and is_t(nxt.value):
+                    nxt.value = s.value
+                    done = True
+                if done:
+                    i += 1
+                    continue
+            out.append(s)
+            i += 1
+        body[:] = out
+        for s in body:
+            for fld in ('body', 'orelse', 'finalbody'):
+                b = getattr(s, fld, None)
+                if isinstance(b, list) and b and isinstance(b[0], ast.stmt) and not isinstance(s, (ast.FunctionDef, ast.AsyncFunctionDef, ast.ClassDef)):
+                    do_block(b, loads, stores)
+            if isinstance(s, ast.Try):
+                for h in s.handlers:
+                    do_block(h.body, loads, stores)
+
+    for fn in [n for n in ast.walk(tree) if isinstance(n, (ast.FunctionDef, ast.AsyncFunctionDef))]:
+        # nested functions share names with their parent: count over the outermost function that contains them
+        pass
+    tops = []
+
+    def collect(body, inside):
+        for n in body:
+            if isinstance(n, (ast.FunctionDef, ast.AsyncFunctionDef)):
+                if not inside:
+                    tops.append(n)
+                collect(n.body, True)
+            elif isinstance(n, ast.ClassDef):
+                collect(n.body, inside)
+            else:
+                for fld in ('body', 'orelse', 'finalbody'):
+                    b = getattr(n, fld, None)
+                    if isinstance(b, list) and b and isinstance(b[0], ast.stmt):
+                        collect(b, inside)
+
+    collect(tree.body, False)
+    for top in tops:
+        loads, stores = names(top)
+        for fn in [n for n in ast.walk(top) if isinstance(n, (ast.FunctionDef, ast.AsyncFunctionDef))]:
+            for _ in range(3):  # chains: a = f(); b = a; return b
+                do_block(fn.body, loads, stores)
+                loads, stores = names(top)
+    return tree
+
+
 class Module:
     def __init__(self, name, path, relpath, source):
         self.name = name
@@ -153,7 +254,7 @@ class Module:
         key = (path, self.digest)
         tree = _TREES.get(key)
         if tree is None:
-            tree = _TREES[key] = _Mangle().visit(ast.parse(source, path))
+            tree = _TREES[key] = _collapse_temps(_Mangle().visit(ast.parse(source, path)))
         self.tree = tree
         self.is_pkg = os.path.basename(path) == '__init__.py'
         self.imports = {}  # local name -> dotted target ('mod' or 'mod.sym')
